@@ -17,7 +17,7 @@ PRED_PROP = {
     "C13.ViewReadFails": "C13", "C13.ServedFileGone": "C13", "C13.JobReadFails": "C13", "C13.NoUseAfterFree": "C13", "C13.Balanced": "C13",
     "C13.LockCount": "C13", "C13.DirExactWhenQuiet": "C13", "C13.NoLeak": "C13",
     "C11.GraphWellFormed": "C11", "C11.ReferencedMirrors": "C11", "C11.RejectIsNoop": "C11", "C11.Applied": "C11",
-    "C09.FlagsMatchJobs": "C09", "C09.Stuck": "C09", "C09.Settles": "C09",
+    "C09.FlagsMatchJobs": "C09", "C09.Stuck": "C09", "C09.Settles": "C09", "C09.ConverterWorkDone": "C09",
     "C12.TagsKept": "C12", "C12.SettingsKept": "C12", "C12.CacheKept": "C12", "C12.StreamsKept": "C12", "C12.Converges": "C12", "C12.ConvergesCorrect": "C12",
     "C16.ConvFresh": "C16", "C16.ConvFreshAtRest": "C16", "C16.ConvEventually": "C16", "C16.DetachStops": "C16",
 }
